@@ -13,25 +13,48 @@ CHECKS["C07"] = {
     "assumptions": [],
 }
 
+def _ranges(name, lo, hi, step):
+    return ["%s=%d..%d" % (name, a, min(a + step - 1, hi)) for a in range(lo, hi + 1, step)]
+
 CHECKS["C05"] = {
     "runs": [
         {"pkg": "./pkg/vaa", "entry": "VerifC05_RoundTrip", "reach": ["end"],
-         "shards": {"quick": ["nsig=0", "nsig=1", "nsig=2"], "thorough": ["nsig=0", "nsig=1", "nsig=2"]}},
-        {"pkg": "./pkg/vaa", "entry": "VerifC05_Decode", "reach": ["accepted", "rejected"]},
+         "shards": {"quick": ["nsig=0", "nsig=1", "nsig=2;plen=1..1001", "nsig=2;plen=1002..70000"],
+                    "thorough": ["nsig=0", "nsig=1", "nsig=2", "nsig=3", "nsig=19", "nsig=255;plen=1..1001", "nsig=255;plen=1002..70000"]}},
+        {"pkg": "./pkg/vaa", "entry": "VerifC05_Decode", "reach": ["accepted", "rejected"],
+         "shards": {"quick": _ranges("L", 0, 59, 60) + _ranges("L", 60, 131, 9), "thorough": _ranges("L", 0, 59, 60) + _ranges("L", 60, 400, 12)}},
+        {"pkg": "./pkg/vaa", "entry": "VerifC05_DecodeLong", "reach": ["accepted", "rejected"]},
     ],
-    "bounds": {},
-    "outside": "",
-    "assumptions": ["encoding/binary.Read/Write modelled as big-endian bytes of the static fixed-size type (DESIGN §4.2)",
-                    "Keccak-256 as an uninterpreted function per input length"],
+    "bounds": {
+        "quick": {"RoundTrip": "payload length in {1,2,3,100,999,1000,1001,2000,4096,4097,65535,65536,65537} plus c-1,c,c+1,2c for every integer constant c in [64,200000] of Unmarshal's SSA (derived per run); 0..2 signatures; every other field fully symbolic",
+                  "Decode": "every byte string of length 0..131 (all bytes symbolic, signature-count byte symbolic: forks over every feasible count); plus lengths 1057,1058,2100,66000 and the constant-derived ones with <= 2 signatures",
+                  "unwind": 3000},
+        "thorough": {"RoundTrip": "same payload lengths; 0,1,2,3,19,255 signatures",
+                     "Decode": "every byte string of length 0..400; long inputs as in quick", "unwind": 3000}},
+    "outside": "byte strings longer than the listed ranges other than the constant-derived lengths; payload lengths not listed; timestamps >= 2^32 (not representable in the format)",
+    "assumptions": ["encoding/binary.Read/Write modelled as big-endian bytes of the static fixed-size type (DESIGN 4.2); bytes.Reader/bytes.Buffer executed as real code",
+                    "Keccak-256 as an uninterpreted function per input length (the digest assertion needs only congruence)"],
 }
 
 CHECKS["C06"] = {
     "runs": [
         {"pkg": "./pkg/vaa", "entry": "VerifC06_Verify", "reach": ["accepted", "rejected"],
-         "shards": {"quick": ["n=0", "n=1", "n=2;k=0,1", "n=2;k=2"]}},
+         "shards": {"quick": ["n=0;k=0..5;dup=0", "n=1;k=0..3;dup=0", "n=2;k=0,1;dup=0,1", "n=2;k=2;dup=0", "n=2;k=2;dup=1", "n=2;k=3;dup=0;plen=1;sel=0,1", "n=2;k=3;dup=0;plen=1;sel=2,3",
+                              "n=3;k=0,1;dup=0,1", "n=3;k=2;dup=0;plen=1;sel=0,1", "n=3;k=2;dup=0;plen=1;sel=2,3,4", "n=3;k=2;dup=1;plen=1;sel=0,1", "n=3;k=2;dup=1;plen=1;sel=2,3,4",
+                              "n=19;k=0,1;dup=0;plen=1", "n=19;k=2;dup=0;plen=1;sel=0,1,2", "n=19;k=2;dup=0;plen=1;sel=3,4,5", "n=255;k=0,1;dup=0;plen=1", "n=255;k=2;dup=0;plen=1;sel=0,1,2", "n=255;k=2;dup=0;plen=1;sel=3,4,5"],
+                    "thorough": ["n=0;k=0..5;dup=0", "n=1;k=0..3;dup=0", "n=2;k=0..2;dup=0,1", "n=2;k=3;dup=0", "n=2;k=3;dup=1",
+                                 "n=3;k=0..2;dup=0", "n=3;k=0..2;dup=1", "n=3;k=3;dup=0;plen=1", "n=3;k=3;dup=1;plen=1",
+                                 "n=4;k=0..2;dup=0", "n=4;k=0..2;dup=1", "n=4;k=3;dup=0;plen=1", "n=4;k=3;dup=1;plen=1",
+                                 "n=19;k=0..2;dup=0;plen=1", "n=19;k=0..2;dup=1;plen=1", "n=255;k=0..2;dup=0;plen=1", "n=255;k=0..2;dup=1;plen=1"]},
+         "timeout": {"quick": 1500, "thorough": 20000}},
+        {"pkg": "./pkg/vaa", "entry": "VerifC06_BodyBound", "reach": ["accepted", "rejected"]},
     ],
-    "bounds": {},
-    "outside": "",
-    "assumptions": ["ecrecover model: registered (digest,signature) pairs recover to their key; anything else fails or recovers to an address outside the honest keys (existential unforgeability)",
-                    "Keccak-256 as an uninterpreted function per input length"],
+    "bounds": {
+        "quick": {"guardian list": "length n in {0,1,2,3,19,255}; distinct addresses, or list[1]==list[0] (dup) for n in {2,3}",
+                  "signatures": "k <= 3 (n<=2), k <= 2 (n>=3); every guardian-index byte fully symbolic; each slot's bytes: signed by any of the first min(n,4) members over the digest, by member 0 over a digest with one symbolic body-hash bit flipped, or 65 arbitrary bytes",
+                  "body": "all body fields symbolic, payload length 1..2"},
+        "thorough": {"guardian list": "n in {0,1,2,3,4,19,255}, with and without a repeated address", "signatures": "k <= 3 everywhere"}},
+    "outside": "k >= 4 signatures; lists with more than one repeated address; list lengths other than those listed (the code's only size-dependent operations are the two integer comparisons against len(list), exercised at 0..4, 19 and 255 with a symbolic index byte)",
+    "assumptions": ["ecrecover model (DESIGN 4.1): a (digest,signature) pair produced by SignBy recovers to its key; any other pair fails or recovers to an address different from every honest key (existential unforgeability); recovery is a function of (digest, signature)",
+                    "Keccak-256 uninterpreted; VerifC06_BodyBound additionally assumes collision-freeness on the pre-images hashed on the path"],
 }
